@@ -61,7 +61,7 @@ def finding_key(cfg: dict, cand: dict) -> str:
     if cfg.get('part') == 'progloop':
         return f"progloop:{cfg['prog']},B={cfg['B']},errors={cfg['errors']},failures={cfg['failures']}:{bad[0] if bad else '?'}"
     if cfg.get('part') == 'natural':
-        return f"natural:{cfg['prog']},errors={cfg['errors']},cfe={cfg['cfe']},B={cfg['B']}:{bad[0] if bad else '?'}"
+        return f"natural:{cfg['prog']},errors={cfg['errors']},cfe={cfg['cfe']},B={cfg['B']}{',after=' + cfg['prior'] if cfg.get('prior') else ''}:{bad[0] if bad else '?'}"
     hist = (f",history={cfg['stage']}" if cfg.get('stage') else '') + (f",status0={cfg['status0']}" if cfg.get('status0') is not None else '')
     return (f"errors={cfg['errors']},failures={cfg['failures']},cfe={cfg['cfe']},B={cfg['B']},N={cfg['N']},"
             f"faults={cfg['faults']},hooks={cfg['hook_faults']},t={cfg['t']},offset={cfg['offset']}{hist}:{bad[0] if bad else '?'}")
@@ -91,6 +91,10 @@ def natural_configs(tier: str):
                         continue   # (its pass-1 comparison subtracts two uninterpreted values: z3 gives up)
                     out.append({'part': 'natural', 'prog': name, 'errors': errors, 'failures': 'ignore' if B == 1 else 'raise', 'cfe': cfe, 'B': B,
                                 'L': 2, 't': 1, 'twin': None})
+                    if B == 1 and name in ('div', 'log') and errors in ('raise', 'skip'):
+                        # after earlier lenient solves that FAILED (NumPy's process-wide error state must be as before)
+                        out.append({'part': 'natural', 'prog': name, 'errors': errors, 'failures': 'ignore', 'cfe': cfe, 'B': B,
+                                    'L': 2, 't': 1, 'twin': None, 'prior': 'lenient_fail'})
     return out
 
 
@@ -108,6 +112,7 @@ def explore_natural(cfg: dict) -> dict:
     """Full solve_t on a parser-built model over symbolic data with IEEE arithmetic and NumPy's warning rules;
     the per-pass events (values, first warning statement) are derived by the AST reference interpreter and fed
     to the same reference state machine as the scripted family."""
+    import contextlib
     import time
     import warnings
 
@@ -141,8 +146,35 @@ def explore_natural(cfg: dict) -> dict:
     holder: dict = {}
     twin = cfg.get('twin')
 
+    def default_errstate():
+        np.seterr(**sv.ERRSTATE_DEFAULT)
+        sv.ERRSTATE.update(sv.ERRSTATE_DEFAULT)
+
     def run(src, symbolic: bool):
+        try:
+            return run_(src, symbolic)
+        finally:
+            default_errstate()
+
+    def run_(src, symbolic: bool):
         dtype = object if symbolic else float
+        default_errstate()   # NumPy's defaults: divide / over / invalid warn, under ignored
+        if cfg.get('prior') == 'lenient_fail':
+            # HISTORY: an earlier solve of ANOTHER model under a lenient policy that ends in NonConvergenceError (and one
+            # that ends in an evaluation error); whatever it switched off must be back on for the solve under test
+            for kw0 in (dict(errors='ignore', failures='raise'), dict(errors='replace', failures='raise'), dict(errors='skip', failures='raise')):
+                m0 = Model(list(range(L)), dtype=dtype)
+                for n in names:
+                    m0.__dict__['_' + n][:] = 1.0
+                for n in Model.ENDOGENOUS:
+                    m0.__dict__['_' + n][:] = 5.0
+                try:
+                    with warnings.catch_warnings():
+                        warnings.simplefilter('ignore')
+                        with (lf.shimmed() if symbolic else contextlib.nullcontext()):
+                            m0.solve_t(t, max_iter=1, tol=1e-9, **kw0)
+                except Exception:  # noqa: BLE001
+                    pass
         m = Model(list(range(L)), dtype=dtype)
         cells = {n: [src.f(f'{n}_{j}') for j in range(L)] for n in names}
         for n in names:
@@ -160,13 +192,13 @@ def explore_natural(cfg: dict) -> dict:
                     with lf.shimmed():
                         r = m.solve_t(t, **kw)
                 else:
-                    with np.errstate(divide='warn', over='warn', invalid='warn', under='ignore'):
-                        r = m.solve_t(t, **kw)
+                    r = m.solve_t(t, **kw)     # under the ambient error state (NumPy's defaults unless something leaked)
             out.update(kind='ret', ret=r, exc=None, cause=None)
         except Exception as e:  # noqa: BLE001
             out.update(kind='exc', ret=None, exc=type(e).__name__, cause=type(e.__cause__).__name__ if e.__cause__ is not None else None)
         out['status'], out['iters'] = str(m.status[t]), int(m.iterations[t])
         # reference: per-pass events from the AST interpreter under the same arithmetic / warning rules
+        default_errstate()
         rcells = {n: [src.f(f'{n}_{j}') for j in range(L)] for n in names}
         order = evaluation_order(prog)
         check = [eq.target.name for eq in order]
